@@ -144,7 +144,12 @@ func compareClaims(got oidc.Claims, p map[string]any, alg string, full bool) (fi
 		}
 	}
 	sort.Strings(keys)
+	// a registered member of the wrong JSON type has no counterpart in typed claims: nothing to compare it with
+	skip := mistypedMembers(p)
 	for _, k := range keys {
+		if slices.Contains(skip, k) {
+			continue
+		}
 		fields++
 		gv, gok := gn[k]
 		pv, pok := pn[k]
